@@ -9,4 +9,5 @@ class Shade(enum.Enum):
 
 
 class Thing:
-    pass
+    class Part:
+        pass
